@@ -54,6 +54,10 @@ CHECKS = {
    "exhaustive enumeration of (file, progress, edit) histories executed on the real migrate.Executor, judged by the prefix-equality rule",
    "All files of n<=5 statements x every partial progress k (revision produced by a real failing run) x every single edit (thorough: every pair of edits for n<=4) x 2 directory layouts are re-hashed and re-run on the real Executor: a changed applied prefix must give HistoryChangedError, zero executed statements, untouched history and no panic; a changed tail must resume with exactly the new tail and leave the version done for a following Pending.",
    "Recording driver/store in process; timestamps and operator version excluded from 'untouched'."),
+ "C13": ("fault_enumeration",
+   "exhaustive enumeration of failing-statement positions x transaction modes x per-file directives x apply counts on the real CLI and a real SQLite file, judged by a reference model of each mode and by differential full dumps",
+   "`migrate apply`: 5 (thorough 12) directory shapes x a really failing statement at every position x tx-mode file/all/none x txmode directives on the failing or preceding file x apply count: the journal rows written by the statements and the revision rows, read by our own connection, must equal what the mode promises; after repairing the file the full dump must equal that of a run that never failed. `--dry-run` of migrate apply from 5 reached states x modes x counts x baseline/allow-dirty and of schema apply must leave dump and directory byte-identical. `schema apply` plans failing midway on populated data must leave the database unchanged in the default and file modes.",
+   "SQLite file engine only; statement failure = a statement the engine really rejects."),
  "C15": ("exploration",
    "bounded-exhaustive enumeration over the exported type registries x parameter grid and over the differ universe states, each pushed through MarshalHCL/EvalHCL of the real codecs and compared by differ, formatted types, own structural comparison and byte fixpoint",
    "For the MySQL, PostgreSQL and SQLite codecs: every registered type spec x parameter grid (size, precision/scale, time precision, unsigned, enum/set values, PostgreSQL arrays) must be a FormatType/ParseType fixpoint and survive MarshalHCL -> EvalHCLBytes as a column type with empty diff both ways and identical bytes on re-marshal; every state of the differ universe (base, +1 edit or equivalence; thorough +2 edits) must round-trip with empty diff both ways, equal element lists / attribute sets / formatted types by our own comparison, and byte-identical re-marshal.",
